@@ -69,7 +69,9 @@ def c14(tier, seed):
     obs += so
     ro, rcmd, rlog, _ = units_verus.run_unit("raw_type")
     obs += ro
-    cmd = cmd + " ; " + vcmd + " ; " + scmd + " ; " + rcmd
+    eo, ecmd, elog, _ = units_verus.run_unit("edition")
+    obs += eo
+    cmd = cmd + " ; " + vcmd + " ; " + scmd + " ; " + rcmd + " ; " + ecmd
     prep = [prep] + [dict(l, unit="fn_abi") for l in vlog] + [dict(l, unit="var_string") for l in slog]
     meta = {
         "checker_cmd": cmd,
@@ -79,6 +81,7 @@ def c14(tier, seed):
         "functions_under_contract": [
             "bindgen/features.rs: RustTarget::stable, RustTarget::minor, RustTarget::is_compatible, RustFeatures::new, RustFeatures::new_with_latest_edition, RustEdition::is_available, RustTarget::latest_edition, RustEdition::from_str (literal inputs), LATEST_STABLE_RUST, EARLIEST_STABLE_RUST",
             "bindgen/ir/function.rs: FunctionSig::abi, FunctionSig::is_variadic (Verus unit fn_abi: the ABI gating site; override lookup = one uninterpreted accessor)",
+            "bindgen/lib.rs: the feature-synchronisation / edition-validation expression of Builder::generate (Verus unit edition, block extracted by rule R18): unsupported edition -> BindgenError::UnsupportedEdition, otherwise RustFeatures::new(target, edition) / new_with_latest_edition(target)",
             "bindgen/codegen/helpers.rs: ast_ty::raw_type (Verus unit raw_type: ::core::ffi::X only when core_ffi_c)",
             "bindgen/codegen/mod.rs: the VarType::String arm of <Var as CodeGenerator>::codegen (Verus unit var_string: block extracted by rule R18; each token template is an env constructor recording the gated feature its text uses) + BindgenContext::trait_prefix",
         ],
@@ -89,7 +92,7 @@ def c14(tier, seed):
         ],
         "unverified": [
             "that the remaining code-generation sites consult their flag (codegen/mod.rs unsafe_extern_blocks / offset_of / ptr_metadata / layout_for_ptr): only FunctionSig::abi, raw_type and the string-constant arm are under contract",
-            "edition validation inside Builder::generate (lib.rs)",
+            "RustTarget::default() (rustc --version probing)",
         ],
     }
     sens, sob = _sens("C14", tier)
